@@ -220,6 +220,45 @@ def _mk_steps():
     return ExpressionSolver(FaultyAtom, _default_ops(), _default_steps(order))
 
 
+def _mk_steps2():
+    # binary '-' and binary '+' live in separate steps (subtraction first)
+    steps = _default_steps(["args", "sign", "pow", "mul"]) + [
+        dict(operators=['sub'], otype=Otype.BINARY),
+        dict(operators=['add'], otype=Otype.BINARY),
+    ] + _default_steps(["cmp", "not", "and", "or"])
+    return ExpressionSolver(FaultyAtom, _default_ops(), steps)
+
+
+# --- atoms whose value is a NumPy array owned by the caller (names map to external arrays)
+ARRAYS = {}
+
+
+def reset_arrays():
+    ARRAYS.clear()
+    ARRAYS.update({"foo": np.array([3.0, 4.0, 5.0]), "bar": np.array([1.0, 2.0, 0.5]),
+                   "zero": np.zeros(3)})
+
+
+reset_arrays()
+
+
+class ArrayAtom(AtomBase):
+    """As the README's variable atom, but the variables are arrays: the atom holds the
+    caller's array by reference, the inherited AtomBase arithmetic does the work."""
+
+    def __init__(self, value):
+        if isinstance(value, str):
+            InjectedFault.tick("construct")
+            v = value.strip()
+            self.value = ARRAYS[v] if v in ARRAYS else float(v)
+        else:
+            self.value = value
+
+
+def _mk_arrays():
+    return ExpressionSolver(ArrayAtom)
+
+
 def _mk_unit():
     return ExpressionSolver(unit_atom, {'par': OperatorPar, 'mul': OperatorMul,
                                         'truediv': OperatorTruediv})
@@ -230,6 +269,8 @@ def _mk_factory():
 
 
 KINDS = {
+    "steps2": (_mk_steps2, "numeric"),
+    "arrays": (_mk_arrays, "arrays"),
     "factory": (_mk_factory, "numeric"),
     "base": (_mk_base, "numeric"),
     "faulty": (_mk_faulty, "numeric"),
@@ -238,7 +279,8 @@ KINDS = {
     "steps": (_mk_steps, "numeric"),
     "unit": (_mk_unit, "unit"),
 }
-KIND_ORDER = ["base", "faulty", "string", "subset", "steps", "unit", "factory"]
+KIND_ORDER = ["base", "faulty", "string", "subset", "steps", "unit", "factory", "steps2",
+              "arrays"]
 
 
 # expression generator ---------------------------------------------------------
@@ -363,6 +405,7 @@ CANARIES = {
     "subset": ["1", "2+3*4", "(1+2)*3", "foo*bar+1"],
     "string": ["a", "a+bc", "(a+bc)>x y z", "limit+100 km"],
     "unit": ["m", "kg*m2/s2", "km/(s*K)", "1e3*J"],
+    "arrays": ["foo", "foo - 1", "foo * 2", "foo + bar", "bar / 2 - foo", "zero + 1"],
 }
 BASE_CANARIES = [c for c in CANARIES["numeric"] if "foo" not in c]
 
@@ -383,7 +426,8 @@ def text_fault(tokens, kind, pos, family):
     token list or None when the kind does not apply to this expression."""
     n = len(tokens)
     order = list(range(pos % n, n)) + list(range(0, pos % n))
-    bad = {"numeric": "qux", "subset": "qux", "string": "BAD", "unit": "xyz"}[family]
+    bad = {"numeric": "qux", "subset": "qux", "string": "BAD", "unit": "xyz",
+           "arrays": "qux"}[family]
     if kind == "unknown_atom":
         for i in order:
             if is_atom_token(tokens[i]):
@@ -438,7 +482,22 @@ def render(tokens, rng, blanks):
     return "".join(out)
 
 
+def gen_arrays(rng, depth):
+    def expr(d):
+        r = rng.random()
+        if d <= 0 or r < 0.3:
+            return [rng.choice(["foo", "bar", "zero", "1", "2", "0.5"])]
+        if r < 0.8:
+            return expr(d - 1) + [rng.choice(["+", "-", "-", "*", "/", "**"])] + expr(d - 1)
+        if r < 0.9:
+            return ["("] + expr(d - 1) + [")"]
+        return [rng.choice(["sqrt(", "exp(", "sin("])] + expr(d - 1) + [")"]
+    return expr(depth)
+
+
 def gen_tokens(rng, family, depth):
+    if family == "arrays":
+        return gen_arrays(rng, min(depth, 3))
     if family == "numeric":
         return gen_numeric(rng, depth, True)
     if family == "subset":
@@ -496,6 +555,7 @@ class SolverMachine(Machine):
         self.swept = False
         self.abstract = "new"
         InjectedFault.arm(None)
+        reset_arrays()
         # pristine outcomes, before any history of this run
         self.pristine = {}
         for k in KIND_ORDER:
@@ -663,7 +723,8 @@ class SolverMachine(Machine):
                 yield dict(op, fault=dict(op["fault"], exc="ValueError"))
         e = op["expr"]
         fam = KINDS.get(op["inst"], (None, "numeric"))[1]
-        simple = {"numeric": ["1", "1+", "(1", "1+qux", "1+1"],
+        simple = {"arrays": ["foo", "foo-1", "(foo", "foo+qux"],
+                  "numeric": ["1", "1+", "(1", "1+qux", "1+1"],
                   "subset": ["1", "1+", "(1", "1+qux", "1+1"],
                   "string": ["a", "a+", "(a", "a+BAD", "a+a"],
                   "unit": ["m", "m*", "(m", "m*xyz", "m*s"]}[fam]
